@@ -2,7 +2,7 @@
 import ps, oracle, countlib, C04
 
 LEVEL = "proof"
-THEOREMS = ["C05_mask_lemma", "C05_kcount_lemma", "C05_tuplet_one_byte", "C05_small_table_ok", "C05_no_split", "C05_segment_tuplets_spec", "C05_ktuplets_model_kernel", "C05_byte_values", "C05_full_segment_tuplets"]
+THEOREMS = ["C05_mask_lemma", "C05_kcount_lemma", "C05_tuplet_one_byte", "C05_small_table_ok", "C05_no_split", "C05_segment_tuplets_spec", "C05_ktuplets_model_kernel", "C05_byte_values", "C05_full_segment_tuplets", "C05_kernel_bytes_spec"]
 ASSUMPTIONS = [
     "the lemmas are about the source tables (bit masks, small-constellation table; regenerated from the source on every run) and the per-byte logic; that the sieve bytes hold exactly the primes of [start, stop] is the kernel hypothesis (erat_spec), exercised by the correspondence",
     "the summation over the bytes of all segments (countkTuplets reads 4 bytes at a time; zero padding) is tied by correspondence only",
